@@ -151,6 +151,9 @@ Num txs: {"unknown" if self.txs is None else len(self.txs)}
         target = self.target()
         if self.bits[-2] & 0x80 or target == 0:
             return False
+        # a compact target that does not fit in 256 bits (overflow) is never satisfied
+        if target >= 2**256:
+            return False
         # return whether this integer is less than or equal to the target
         return proof <= target
 
